@@ -27,8 +27,16 @@ use vcore::{vensure, Fnv, Src};
 // key pool, messages, memoised shares and pairings (pure functions of the ids)
 
 const NKEYS: usize = 8;
-/// key index meaning "the point at infinity"
+/// key indices from INF on mean "the point at infinity", in different
+/// in-memory representations: INF = `PublicKey::default()`, INF+1 = the parsed
+/// encoding c0 00.., INF+2 = computed `pk + (-pk)`, INF+3 = computed as the sum of
+/// the public keys of sk and r - sk. All four are equal as values and have the
+/// same bytes; only their projective coordinates differ.
 const INF: u8 = 8;
+const NINF: u8 = 4;
+fn is_inf_idx(k: u8) -> bool {
+    k >= INF
+}
 const NPOOLS: usize = 4;
 
 const M_EMPTY: &[u8] = b"";
@@ -64,15 +72,45 @@ impl Pool {
         Self { sks, pks, shares: HashMap::new(), gts: HashMap::new() }
     }
     fn pk(&self, k: u8) -> PublicKey {
-        if k == INF {
-            PublicKey::default()
+        if is_inf_idx(k) {
+            match k - INF {
+                0 => PublicKey::default(),
+                1 => {
+                    let mut b = [0u8; 48];
+                    b[0] = 0xc0;
+                    PublicKey::from_bytes(&b).expect("canonical infinity encoding")
+                }
+                2 => {
+                    let p = self.pks[0];
+                    let mut q = p;
+                    q.negate();
+                    p + &q
+                }
+                _ => {
+                    // public keys of sk and r - sk
+                    const R: [u8; 32] = [
+                        0x73, 0xed, 0xa7, 0x53, 0x29, 0x9d, 0x7d, 0x48, 0x33, 0x39, 0xd8, 0x08, 0x09, 0xa1, 0xd8, 0x05, 0x53, 0xbd, 0xa4, 0x02, 0xff, 0xfe,
+                        0x5b, 0xfe, 0xff, 0xff, 0xff, 0xff, 0x00, 0x00, 0x00, 0x01,
+                    ];
+                    let x = self.sks[1].to_bytes();
+                    let mut b = [0u8; 32];
+                    let mut borrow = 0i16;
+                    for i in (0..32).rev() {
+                        let d = i16::from(R[i]) - i16::from(x[i]) - borrow;
+                        borrow = i16::from(d < 0);
+                        b[i] = (d + 256 * borrow) as u8;
+                    }
+                    let other = SecretKey::from_bytes(&b).expect("r - sk is a valid scalar");
+                    self.pks[1] + &other.public_key()
+                }
+            }
         } else {
             self.pks[k as usize]
         }
     }
     /// sign(sk_k, msg_m): the share of pair (k, m) in an aggregate
     fn share(&mut self, p: Pair) -> Signature {
-        assert!(p.0 != INF);
+        assert!(!is_inf_idx(p.0));
         if let Some(s) = self.shares.get(&p) {
             return s.clone();
         }
@@ -181,8 +219,8 @@ fn render_pairs(pairs: &[Pair]) -> String {
         if i > 0 {
             s.push(',');
         }
-        if *k == INF {
-            s.push_str(&format!("(INF,m{m})"));
+        if is_inf_idx(*k) {
+            s.push_str(&format!("(INF{},m{m})", ["-default", "-parsed", "-pk-minus-pk", "-pk(sk)+pk(r-sk)"][(*k - INF) as usize]));
         } else {
             s.push_str(&format!("(k{k},m{m})"));
         }
@@ -216,7 +254,7 @@ fn gen_list(s: &mut Src<'_>, c: &ListCfg) -> Vec<Pair> {
     let n = s.below(c.maxlen + 1);
     (0..n)
         .map(|_| {
-            let k = if c.inf > 0 && s.chance(c.inf) { INF } else { s.below(c.nk) as u8 };
+            let k = if c.inf > 0 && s.chance(c.inf) { INF + s.below(NINF as usize) as u8 } else { s.below(c.nk) as u8 };
             (k, s.below(c.nm) as u8)
         })
         .collect()
@@ -227,7 +265,7 @@ fn gen_list(s: &mut Src<'_>, c: &ListCfg) -> Vec<Pair> {
 fn harness_aggregate(pool: &mut Pool, pairs: &[Pair]) -> Signature {
     let mut agg = Signature::default();
     for p in pairs {
-        if p.0 != INF {
+        if !is_inf_idx(p.0) {
             agg += &pool.share(*p);
         }
     }
@@ -236,7 +274,7 @@ fn harness_aggregate(pool: &mut Pool, pairs: &[Pair]) -> Signature {
 
 fn make_query(s: &mut Src<'_>, pool: &mut Pool, pairs: Vec<Pair>, c: &ListCfg, correct_only: bool) -> Query {
     let agg = harness_aggregate(pool, &pairs);
-    let real: Vec<usize> = (0..pairs.len()).filter(|i| pairs[*i].0 != INF).collect();
+    let real: Vec<usize> = (0..pairs.len()).filter(|i| !is_inf_idx(pairs[*i].0)).collect();
     let kind = if correct_only {
         SigKind::Correct
     } else {
@@ -292,7 +330,7 @@ fn make_query(s: &mut Src<'_>, pool: &mut Pool, pairs: Vec<Pair>, c: &ListCfg, c
             g
         }
     };
-    let has_inf = pairs.iter().any(|p| p.0 == INF);
+    let has_inf = pairs.iter().any(|p| is_inf_idx(p.0));
     let expect = !has_inf && sig.to_bytes() == agg.to_bytes();
     Query { pairs, kind, sig, expect, has_inf }
 }
@@ -389,6 +427,9 @@ fn case_paths(bytes: &[u8], ctx: &mut Ctx) -> CaseResult {
 
         ctx.label(format!("paths:sig:{:?}:{}", q.kind, if q.expect { "valid" } else { "invalid" }));
         ctx.label(format!("paths:len:{}", q.pairs.len()));
+        if q.pairs.iter().any(|p| p.0 >= INF + 2) {
+            ctx.label("paths:infinity-key:computed-by-group-arithmetic");
+        }
         if q.has_inf {
             ctx.label("paths:infinity-key");
         }
@@ -1163,7 +1204,7 @@ fn main() {
     let _ = off_subgroup_g2();
     let prop = Property {
         id: "C15",
-        rule: "cases are (pair list, signature) queries over a pool of 8 secret keys owned by the harness (lists of 0..5 pairs with repeated keys/messages, the empty message, the infinity key; signature = correct aggregate | share missing/extra | wrong message | negated | plus generator | identity | on-curve point outside the subgroup), run (a) through all four verifiers, (b) as sequential histories Verify/Update(truthful)/Evict on a cache of capacity 1..6, (c) as 2-3 threads on one shared cache under a schedule of critical sections owned by the harness (every interleaving for 2 threads x one Verify of <=2 pairs; sampled otherwise). Non-trivial = (a) non-empty list; (b) a history in which a pair evicted by capacity is verified again; (c) a schedule in which two threads miss on the same key before either inserts. Distinct by decoded query / history / (scripts, realised thread order).",
+        rule: "cases are (pair list, signature) queries over a pool of 8 secret keys owned by the harness (lists of 0..5 pairs with repeated keys/messages, the empty message, the infinity key in four in-memory representations (default, parsed, pk + (-pk), pk(sk) + pk(r - sk)); signature = correct aggregate | share missing/extra | wrong message | negated | plus generator | identity | on-curve point outside the subgroup), run (a) through all four verifiers, (b) as sequential histories Verify/Update(truthful)/Evict on a cache of capacity 1..6, (c) as 2-3 threads on one shared cache under a schedule of critical sections owned by the harness (every interleaving for 2 threads x one Verify of <=2 pairs; sampled otherwise). Non-trivial = (a) non-empty list; (b) a history in which a pair evicted by capacity is verified again; (c) a schedule in which two threads miss on the same key before either inserts. Distinct by decoded query / history / (scripts, realised thread order).",
         assumptions: &[
             "model::sig: valid <=> no key is infinity and signature bytes == aggregate of sign(sk_i, m_i) computed by the harness with the secret keys (sign/aggregate of chia-bls are the definition of 'signatures by those keys')",
             "interleavings are explored at the granularity of the cache's mutex acquisitions (feature chia-bls/verif-hooks); code between two acquisitions touches no shared state",
@@ -1181,6 +1222,7 @@ fn main() {
                 min_nontrivial: 10_000,
                 required_labels: &[
                     "paths:infinity-key",
+                    "paths:infinity-key:computed-by-group-arithmetic",
                     "paths:empty-message",
                     "paths:repeated-pair",
                     "paths:singleton",
